@@ -2,6 +2,7 @@ package keymap
 
 import (
 	"sort"
+	"strings"
 
 	"github.com/reeflective/readline/inputrc"
 	"github.com/reeflective/readline/internal/core"
@@ -174,15 +175,19 @@ func (m *Engine) InputIsTerminator() bool {
 		inputrc.Unescape(`\C-]`),
 	}
 
-	binds := make(map[string]inputrc.Bind)
+	// The keys that have invoked the command decide, not the ones typed
+	// after them: those are not ours to read, and even less to consume.
+	caller := string(m.keys.Caller())
 
 	for _, sequence := range terminators {
-		binds[sequence] = inputrc.Bind{Action: "abort", Macro: false}
+		if strings.HasSuffix(caller, sequence) {
+			return true
+		}
 	}
 
-	bind, _, _, _ := m.dispatchKeys(binds)
-
-	return bind.Action == "abort"
+	// Any other key bound to the abort command counts as one too
+	// (this is what happened whenever no other key was waiting).
+	return m.active.Action == "abort"
 }
 
 // Commands returns the map of all command functions available to the shell.
